@@ -41,7 +41,7 @@ def make_transforms(spec_t):
 
     v = o = c = None
     if spec_t.get("vscale") is not None or spec_t.get("voffset") is not None:
-        v = VariableScaler(None if spec_t.get("vscale") is None else np.asarray(spec_t["vscale"], dtype=np.float64),
+        v = VariableScaler(None if spec_t.get("vscale") is None else (np.asarray(spec_t["vscale"]) if spec_t.get("vscale_integer_array") else np.asarray(spec_t["vscale"], dtype=np.float64)),
                            None if spec_t.get("voffset") is None else np.asarray(spec_t["voffset"], dtype=np.float64))
     if spec_t.get("oscale") is not None:
         o = ObjectiveScaler(spec_t["oscale"], flip=bool(spec_t.get("flip")))
